@@ -185,8 +185,9 @@ Definition define_constant (s : state) (name : string) (v : value) : state * res
   then (s, Raise "ValueError")
   else (set_constants (sm_set (to_key name) v (constants s)) s, Ok tt).
 
-(* clear_config (1015-1029) *)
-Definition clear_config (s : state) (consts : bool) : state * res unit :=
+(* clear_config (1015-1029) as it was before the repair (saved constants re-defined through
+   constant(), which can raise): kept for the refutation theorem *)
+Definition clear_config_orig (s : state) (consts : bool) : state * res unit :=
   let s := set_locked false s in
   let s := set_config [] s in
   let s := set_singletons [] s in
@@ -204,6 +205,17 @@ Definition clear_config (s : state) (consts : bool) : state * res unit :=
     | Raise e => (s, Raise e)
     | Ok _ => (set_operative [] s, Ok tt)
     end.
+
+(* clear_config (1015-1029), repaired: the saved constants are re-inserted directly *)
+Definition clear_config (s : state) (consts : bool) : state * res unit :=
+  let s := set_locked false s in
+  let s := set_config [] s in
+  let s := set_singletons [] s in
+  if consts then (set_operative [] (set_constants req_constants s), Ok tt)
+  else
+    let saved := sm_flat (constants s) in
+    let rebuilt := fold_left (fun m kv => sm_set (fst kv) (snd kv) m) saved sm_empty in
+    (set_operative [] (set_constants rebuilt s), Ok tt).
 
 (* _make_configurable (1677-1732), for function-shaped probes *)
 Definition same_cfg (a b : cfgable) : bool := String.eqb (c_sel a) (c_sel b).
